@@ -19,7 +19,7 @@ var (
 	c06RespCC = []string{"", "max-age=60", "no-store", "no-store, max-age=60", "public", "must-understand, max-age=60", "private", "private, max-age=60",
 		`max-age=60, x-root="C:\\", no-store`, `x-q="a\", max-age=60", no-store, max-age=60`,
 		"x1, x2, x3, x4, x5, x6, x7, x8, x9, x10, x11, x12, x13, x14, x15, x16, no-store, max-age=60", "max-age=60, x-rep, x-rep=1, x-rep, no-store"}
-	c06Reqs = []string{"GET", "GET+no-store", "GET+Range", "GET+Range(items)", "GET+Range(Bytes)", "GET+If-None-Match", "GET+If-Modified-Since", "HEAD", "POST", "GET(empty Method)+Range"}
+	c06Reqs = []string{"GET", "GET+no-store", "GET+Range", "GET+Range(items)", "GET+Range(Bytes)", "GET+If-None-Match", "GET+If-Modified-Since", "HEAD", "POST", "GET(empty Method)+Range", "GET+Range(on a second field line)"}
 )
 
 func c06Statuses(tier string) []int {
@@ -110,6 +110,8 @@ func runC06(x *mc.X) {
 		req.Header.Set("Range", "items=0-3")
 	case "GET+Range(Bytes)":
 		req.Header.Set("Range", "Bytes=0-3")
+	case "GET+Range(on a second field line)":
+		req.Header["Range"] = []string{"", "bytes=0-3"}
 	case "GET(empty Method)+Range":
 		req.Method = ""
 		req.Header.Set("Range", "bytes=0-3")
@@ -244,6 +246,14 @@ func runC06Body(x *mc.X) {
 	x.Nontrivial(fmt.Sprintf("body/%s/%d/%s", kind, n, pre))
 	x.State("body", kind, fmt.Sprint(n, k), pre, fmt.Sprint(stored, replayed))
 	x.Sample(map[string]any{"body_len": n, "cut_at": k, "failure": kind, "store_state": pre, "written_to_store": stored, "second_get": o2.String()})
+	if pre == "empty" {
+		for _, op := range o1.Ops {
+			if op.Kind == "set" {
+				x.Failf("something is written to the store although the body could not be read completely ("+kind+")", "Set(%q) = %q", op.Key, clipB(op.Val))
+				break
+			}
+		}
+	}
 	if tok != "" && (stored || replayed) {
 		x.Failf("incompletely read body stored ("+kind+")", "body of %d bytes failed after %d (%s) but written=%v, later served from the store=%v (%s)", n, k, kind, stored, replayed, o2)
 	}
